@@ -1,1 +1,64 @@
-//! oracle for xtea — to be written from the specification
+//! XTEA (Needham, Wheeler: "Tea extensions", 1997), 32 cycles = 64 Feistel rounds, written from the paper's
+//! reference routine.  Words of key and block are taken little-endian from the byte strings (the convention
+//! the property statement fixes: "32-cycle XTEA over little-endian words").
+
+pub const DELTA: u32 = 0x9E3779B9;
+pub const CYCLES: u32 = 32;
+
+fn le_word(b: &[u8], i: usize) -> u32 {
+    (b[4 * i] as u32) | ((b[4 * i + 1] as u32) << 8) | ((b[4 * i + 2] as u32) << 16) | ((b[4 * i + 3] as u32) << 24)
+}
+fn put_le(o: &mut [u8; 8], i: usize, w: u32) {
+    o[4 * i] = w as u8;
+    o[4 * i + 1] = (w >> 8) as u8;
+    o[4 * i + 2] = (w >> 16) as u8;
+    o[4 * i + 3] = (w >> 24) as u8;
+}
+
+pub fn key_words(key: &[u8; 16]) -> [u32; 4] {
+    [le_word(key, 0), le_word(key, 1), le_word(key, 2), le_word(key, 3)]
+}
+
+/// encipher(v, k): y += (z<<4 ^ z>>5) + z ^ sum + k[sum&3]; sum += delta; z += (y<<4 ^ y>>5) + y ^ sum + k[sum>>11 & 3]
+pub fn encipher(k: &[u32; 4], v: [u32; 2]) -> [u32; 2] {
+    let mut y = v[0];
+    let mut z = v[1];
+    let mut sum = 0u32;
+    let mut n = 0;
+    while n < CYCLES {
+        y = y.wrapping_add((((z << 4) ^ (z >> 5)).wrapping_add(z)) ^ (sum.wrapping_add(k[(sum & 3) as usize])));
+        sum = sum.wrapping_add(DELTA);
+        z = z.wrapping_add((((y << 4) ^ (y >> 5)).wrapping_add(y)) ^ (sum.wrapping_add(k[((sum >> 11) & 3) as usize])));
+        n += 1;
+    }
+    [y, z]
+}
+
+pub fn decipher(k: &[u32; 4], v: [u32; 2]) -> [u32; 2] {
+    let mut y = v[0];
+    let mut z = v[1];
+    let mut sum = DELTA.wrapping_mul(CYCLES);
+    let mut n = 0;
+    while n < CYCLES {
+        z = z.wrapping_sub((((y << 4) ^ (y >> 5)).wrapping_add(y)) ^ (sum.wrapping_add(k[((sum >> 11) & 3) as usize])));
+        sum = sum.wrapping_sub(DELTA);
+        y = y.wrapping_sub((((z << 4) ^ (z >> 5)).wrapping_add(z)) ^ (sum.wrapping_add(k[(sum & 3) as usize])));
+        n += 1;
+    }
+    [y, z]
+}
+
+pub fn encrypt(key: &[u8; 16], block: &[u8; 8]) -> [u8; 8] {
+    let r = encipher(&key_words(key), [le_word(block, 0), le_word(block, 1)]);
+    let mut o = [0u8; 8];
+    put_le(&mut o, 0, r[0]);
+    put_le(&mut o, 1, r[1]);
+    o
+}
+pub fn decrypt(key: &[u8; 16], block: &[u8; 8]) -> [u8; 8] {
+    let r = decipher(&key_words(key), [le_word(block, 0), le_word(block, 1)]);
+    let mut o = [0u8; 8];
+    put_le(&mut o, 0, r[0]);
+    put_le(&mut o, 1, r[1]);
+    o
+}
